@@ -510,7 +510,6 @@ def run(ctx: Ctx) -> None:
                  handles_cfg("Spec", two, K1, UK, C1, 3, 4, ALL_DEV, SH_MID, inv))]
     else:
         main = [("6 ops, all shapes", handles_cfg("Spec", one, K1, UK, C1, 3, 6, ALL_DEV, SH_ALL, inv)),
-                ("5 ops, all shapes, two call hashes", handles_cfg("Spec", one, K1, UK, C2, 3, 5, ALL_DEV, SH_ALL, inv)),
                 ("6 ops, depth 4, two-parent merges, no user forks",
                  handles_cfg("Spec", one, K1, UK, C2, 4, 6, ALL_DEV, '{"fork", "call", "merge1", "merge2", "rb"}', inv)),
                 ("5 ops, two names, chained user forks, rollback of unrecorded states",
@@ -568,7 +567,7 @@ def run(ctx: Ctx) -> None:
     ctx.sample({"source": "tlc-exhaustive", "behaviour": [s["op"] for s in behs[len(behs) // 2]]})
 
     # ---- 3. spec -> code: long simulated behaviours ---------------------------------------------
-    nsim = ctx.pick(80, 1000)
+    nsim = ctx.pick(80, 700)
     depth = ctx.pick(6, 8)
     scfg = handles_cfg("GSpec", two, K1, UK, C2, 4, depth, ALL_DEV, SH_MID, "")
     sres = run_tlc("seq/Handles_Gen.tla", scfg, ctx.scratch, workers=1, simulate=f"num={nsim}",
@@ -587,7 +586,7 @@ def run(ctx: Ctx) -> None:
     ctx.note("asbuilt_drift", stats.get("ok-drift", 0))
 
     # ---- 4. code -> spec: random executions validated by TLC -------------------------------------
-    ntr = ctx.pick(120, 1000)
+    ntr = ctx.pick(120, 800)
     traces = [gen_random_trace(ctx.rng, backend, f"r{n}", ctx.rng.randint(6, 16)) for n in range(ntr)]
     # the minimal histories of the two deviations (TLC's counterexamples of the control runs), executed on
     # the real backend and judged by TLC like every other trace
@@ -640,7 +639,7 @@ def run(ctx: Ctx) -> None:
     ctx.rng.shuffle(dev_h)
     ctx.rng.shuffle(plain_h)
     three = [w for w in wbehs if len(w["kinds"]) == 3][: ctx.pick(10, 0)]
-    chosen = dev_h[: ctx.pick(5, 80)] + plain_h[: ctx.pick(5, 140)] + [w for w in three if w not in dev_h[:5]]
+    chosen = dev_h[: ctx.pick(5, 60)] + plain_h[: ctx.pick(5, 90)] + [w for w in three if w not in dev_h[:5]]
     sched = new_scheduler()
     wstats: dict = {}
     for n, wb in enumerate(chosen):
